@@ -158,19 +158,23 @@ func stackMenu(level int) []sop {
 		{"pop", oPopFrame, "", "", 0},
 		{"var x=I", oDefine, "x", "any", kInt},
 		{"int x=I", oDefine, "x", "int", kInt},
-		{"str x=S", oDefine, "x", "str", kStr},
-		{"x=I", oSet, "x", "", kInt},
 		{"x=S", oSet, "x", "", kStr},
 		{"y=I", oSet, "y", "", kInt},
-		{"map y=M", oDefine, "y", "map", kMap},
 		{"y[1]=I", oSetIndexed, "y", "", kInt},
-		{"unset x", oUnset, "x", "", 0},
+		{"unset y", oUnset, "y", "", 0},
 	}
 	if level >= 1 {
 		m = append(m,
+			sop{"str x=S", oDefine, "x", "str", kStr},
+			sop{"x=I", oSet, "x", "", kInt},
+			sop{"map y=M", oDefine, "y", "map", kMap},
+			sop{"unset x", oUnset, "x", "", 0},
+		)
+	}
+	if level >= 2 {
+		m = append(m,
 			sop{"int x=S", oDefine, "x", "int", kStr}, // must fail and must not create the name
 			sop{"bind x=I", oSetAtScope, "x", "", kInt},
-			sop{"unset y", oUnset, "y", "", 0},
 			sop{"unset y[1]", oUnsetIndexed, "y", "", 0},
 			sop{"x=M", oSet, "x", "", kMap},
 		)
@@ -183,7 +187,7 @@ func stepVal(k kind, step int) val {
 	case kInt:
 		return val{k: kInt, i: int64(10 + step)}
 	case kStr:
-		return val{k: kStr, s: fmt.Sprintf("s%d", step)}
+		return val{k: kStr, s: stepStrings[step]}
 	case kMap:
 		m := &omap{}
 		m.put("k", val{k: kInt, i: int64(100 + step)})
@@ -193,24 +197,57 @@ func stepVal(k kind, step int) val {
 }
 
 type stackRun struct {
-	real     *runtime.Stack
-	model    *mstack
-	vars     map[string]*runtime.StackVariable
-	passed   []*mlrval.Mlrval // collection arguments handed to the stack (must never change afterwards)
-	passedAs []val
-	setsDeep int
-	frames   []int // pushed frames per set
+	real   *runtime.Stack
+	model  *mstack
+	vars   map[string]*runtime.StackVariable
+	frames []int // pushed frames per set
+	alias  string
 }
+
+var stackVars = map[string]*runtime.StackVariable{
+	"x": runtime.NewStackVariable("x"),
+	"y": runtime.NewStackVariable("y"),
+}
+
+var stepStrings = func() []string {
+	var out []string
+	for i := 0; i < 32; i++ {
+		out = append(out, fmt.Sprintf("s%d", i))
+	}
+	return out
+}()
 
 func newStackRun() *stackRun {
 	return &stackRun{
-		real:  runtime.NewStack(),
-		model: newMStack(),
-		vars: map[string]*runtime.StackVariable{
-			"x": runtime.NewStackVariable("x"),
-			"y": runtime.NewStackVariable("y"),
-		},
+		real:   runtime.NewStack(),
+		model:  newMStack(),
+		vars:   stackVars,
 		frames: []int{0},
+	}
+}
+
+func (s *mstack) clone() *mstack {
+	n := &mstack{sets: make([]*mset, len(s.sets))}
+	for i, st := range s.sets {
+		ns := &mset{frames: make([]*mframe, len(st.frames))}
+		for j, f := range st.frames {
+			nf := &mframe{vars: make([]*mvar, len(f.vars))}
+			for k, v := range f.vars {
+				nf.vars[k] = &mvar{v.name, v.typ, v.v.deepCopy()}
+			}
+			ns.frames[j] = nf
+		}
+		n.sets[i] = ns
+	}
+	return n
+}
+
+func (r *stackRun) clone() *stackRun {
+	return &stackRun{
+		real:   r.real.VerifClone(),
+		model:  r.model.clone(),
+		vars:   r.vars,
+		frames: append([]int(nil), r.frames...),
 	}
 }
 
@@ -248,10 +285,6 @@ func (r *stackRun) apply(o *sop, step int) (error, error, bool) {
 	case oDefine, oSet, oSetAtScope:
 		v := stepVal(o.vk, step)
 		mv := v.toMlrval()
-		if o.vk == kMap {
-			r.passed = append(r.passed, mv)
-			r.passedAs = append(r.passedAs, v)
-		}
 		var re, me error
 		switch o.kind {
 		case oDefine:
@@ -263,6 +296,10 @@ func (r *stackRun) apply(o *sop, step int) (error, error, bool) {
 		case oSetAtScope:
 			re = r.real.SetAtScope(r.vars[o.v], mv)
 			me = r.model.setAtScope(o.v, v)
+		}
+		if o.vk == kMap {
+			// by-value binding: a later change of the caller's map must not show through the variable
+			mv.GetMap().PutReference("caller-side-change", mlrval.FromInt(1))
 		}
 		return re, me, false
 	case oSetIndexed:
@@ -298,9 +335,11 @@ func (r *stackRun) apply(o *sop, step int) (error, error, bool) {
 	return nil, nil, false
 }
 
+var stackNames = []string{"x", "y"}
+
 func (r *stackRun) observe() (string, bool) {
 	var diffs []string
-	for _, n := range []string{"x", "y"} {
+	for _, n := range stackNames {
 		got := r.real.Get(r.vars[n])
 		var g val
 		if got == nil {
@@ -316,11 +355,6 @@ func (r *stackRun) observe() (string, bool) {
 			diffs = append(diffs, fmt.Sprintf("Get(%s)=%s, naive stack has %s", n, g.render(), w.render()))
 		}
 	}
-	for i, p := range r.passed {
-		if g := fromMlrval(p); !g.equal(r.passedAs[i]) {
-			diffs = append(diffs, fmt.Sprintf("a map handed to the stack by the caller changed from %s to %s (bound by reference)", r.passedAs[i].render(), g.render()))
-		}
-	}
 	return strings.Join(diffs, "; "), len(diffs) == 0
 }
 
@@ -331,6 +365,8 @@ type singletons struct {
 	names []string
 	saved []mlrval.Mlrval
 	reps  []string
+	types []mlrval.MVType
+	full  bool // compare the printed representation too (slower)
 }
 
 func snapshotSingletons() *singletons {
@@ -341,6 +377,7 @@ func snapshotSingletons() *singletons {
 	for _, p := range s.ptrs {
 		s.saved = append(s.saved, *p)
 		s.reps = append(s.reps, p.GetTypeName()+":"+p.String())
+		s.types = append(s.types, p.Type())
 	}
 	return s
 }
@@ -349,7 +386,10 @@ func snapshotSingletons() *singletons {
 func (s *singletons) check() []string {
 	var bad []string
 	for i, p := range s.ptrs {
-		if p.GetTypeName()+":"+p.String() != s.reps[i] {
+		if p.Type() == s.types[i] && !s.full {
+			continue
+		}
+		if p.Type() != s.types[i] || p.GetTypeName()+":"+p.String() != s.reps[i] {
 			bad = append(bad, fmt.Sprintf("%s became %s %s", s.names[i], p.GetTypeName(), strings.ReplaceAll(p.String(), "\n", " ")))
 			*p = s.saved[i]
 		}
@@ -371,7 +411,7 @@ func stackWorker(w *vf.Worker) {
 	menu := stackMenu(level)
 	sing := snapshotSingletons()
 	seq := make([]int, 0, depth)
-	var nseq, nerrs, nuncon int64
+	var nseq, nerrs, nuncon, nok int64
 	hits := make([]int64, len(menu))
 
 	describe := func(seq []int) string {
@@ -382,65 +422,57 @@ func stackWorker(w *vf.Worker) {
 		return strings.Join(parts, " ; ")
 	}
 
-	// run replays seq; returns false if the last op was not enabled (ill-nested) or the branch must be cut.
-	run := func(seq []int) (extend bool) {
-		r := newStackRun()
-		for step, oi := range seq {
-			o := &menu[oi]
-			if !r.enabled(o) {
-				return false
-			}
-			last := step == len(seq)-1
-			var re, me error
-			var uncon bool
-			p, _ := vf.Try(func() { re, me, uncon = r.apply(o, step) })
-			if !last {
-				if uncon {
-					return false
-				}
-				continue
-			}
-			nseq++
-			hits[oi]++
-			w.Eval(1)
-			key := fmt.Sprintf("%d:%s", len(seq), describe(seq))
-			if p != nil {
-				w.Violation("stack[panic]:"+key, fmt.Sprintf("runtime.Stack panics on the sequence [%s]: %v", describe(seq), p), map[string]any{"ops": describe(seq)})
-				sing.check()
-				return false
-			}
-			if bad := sing.check(); len(bad) > 0 {
-				w.Violation("stack[singleton-overwritten]:"+key, fmt.Sprintf("after [%s] the process-wide constant %s: indexed assignment to a local whose value is a scalar/absent overwrites the shared Mlrval in place", describe(seq), strings.Join(bad, ", ")), map[string]any{"ops": describe(seq)})
-			}
-			if uncon {
-				nuncon++
-				return false
-			}
-			if (re != nil) != (me != nil) {
-				w.Violation("stack[error-mismatch]:"+key, fmt.Sprintf("after [%s]: real stack error=%v, naive stack error=%v", describe(seq), re, me), map[string]any{"ops": describe(seq)})
-				return false
-			}
-			if re != nil {
-				nerrs++
-			}
-			if d, ok := r.observe(); !ok {
-				w.Violation("stack[state]:"+key, fmt.Sprintf("after [%s]: %s", describe(seq), d), map[string]any{"ops": describe(seq)})
-				return false
-			}
-			w.Nontrivial(1)
+	// step applies the last op of seq to r (already holding the prefix state); returns whether to extend.
+	step := func(r *stackRun, seq []int) (extend bool) {
+		oi := seq[len(seq)-1]
+		o := &menu[oi]
+		var re, me error
+		var uncon bool
+		p, _ := vf.Try(func() { re, me, uncon = r.apply(o, len(seq)-1) })
+		nseq++
+		hits[oi]++
+		key := func() string { return fmt.Sprintf("%d:%s", len(seq), describe(seq)) }
+		if p != nil {
+			w.Violation("stack[panic]:"+key(), fmt.Sprintf("runtime.Stack panics on the sequence [%s]: %v", describe(seq), p), map[string]any{"ops": describe(seq)})
+			sing.check()
+			return false
 		}
+		if bad := sing.check(); len(bad) > 0 {
+			w.Violation(fmt.Sprintf("stack[singleton-overwritten]:%d:%s on a local whose value is absent or a scalar", len(seq), o.name), fmt.Sprintf("after [%s] the process-wide constant %s: indexed assignment to a local whose value is a scalar/absent overwrites the shared Mlrval in place", describe(seq), strings.Join(bad, ", ")), map[string]any{"ops": describe(seq)})
+		}
+		if uncon {
+			nuncon++
+			return false
+		}
+		if (re != nil) != (me != nil) {
+			w.Violation("stack[error-mismatch]:"+key(), fmt.Sprintf("after [%s]: real stack error=%v, naive stack error=%v", describe(seq), re, me), map[string]any{"ops": describe(seq)})
+			return false
+		}
+		if re != nil {
+			nerrs++
+		}
+		if d, ok := r.observe(); !ok {
+			w.Violation("stack[state]:"+key(), fmt.Sprintf("after [%s]: %s", describe(seq), d), map[string]any{"ops": describe(seq)})
+			return false
+		}
+		nok++
 		return true
 	}
 
-	var rec func()
-	rec = func() {
+	var rec func(r *stackRun)
+	rec = func(r *stackRun) {
 		if len(seq) >= depth {
 			return
 		}
+		last := len(seq) == depth-1
 		for oi := range menu {
+			if !r.enabled(&menu[oi]) {
+				continue
+			}
 			seq = append(seq, oi)
-			if run(seq) {
-				rec()
+			c := r.clone()
+			if step(c, seq) && !last {
+				rec(c)
 			}
 			seq = seq[:len(seq)-1]
 		}
@@ -449,20 +481,27 @@ func stackWorker(w *vf.Worker) {
 	// shard on the first two operations
 	var idx uint64
 	for a := range menu {
-		seq = append(seq[:0], a)
+		root := newStackRun()
+		if !root.enabled(&menu[a]) {
+			continue
+		}
 		idx++
-		first := w.Mine(idx)
-		if first {
+		seq = append(seq[:0], a)
+		ra := root.clone()
+		if w.Mine(idx) {
 			w.Begin(idx)
+			step(ra, seq)
+		} else {
+			vf.Try(func() { ra.apply(&menu[a], 0) })
+			sing.check()
 		}
-		if first {
-			run(seq)
-		}
-		ok := newStackRun().enabled(&menu[a])
-		if !ok || depth < 2 {
+		if depth < 2 {
 			continue
 		}
 		for b := range menu {
+			if !ra.enabled(&menu[b]) {
+				continue
+			}
 			idx++
 			if !w.Mine(idx) {
 				continue
@@ -470,10 +509,17 @@ func stackWorker(w *vf.Worker) {
 			w.Begin(idx)
 			w.Label(func() string { return "stack sequences starting with " + menu[a].name + " ; " + menu[b].name })
 			seq = append(seq[:0], a, b)
-			if run(seq) {
-				rec()
+			rb := ra.clone()
+			if step(rb, seq) {
+				rec(rb)
 			}
 		}
+	}
+	w.Eval(nseq)
+	w.Nontrivial(nok)
+	sing.full = true
+	if bad := sing.check(); len(bad) > 0 {
+		w.Violation("stack[singleton-overwritten]:end-of-shard", "a process-wide constant changed its printed value: "+strings.Join(bad, ", "), nil)
 	}
 	w.Count("stack_sequences", nseq)
 	w.Count("stack_sequences_ending_in_expected_error", nerrs)
